@@ -110,8 +110,17 @@ def _build(spec):
 rt.build = _build
 
 
+# characters and sequences that Unicode normalisation / case or width folding would rewrite: they must reach the reader as given
+SENSITIVE = ["\u212b", "\u2126", "\u212a", "\u037e", "\u0387", "\u1f71", "\u0340", "\u0344", "\uf900", "\ufa10", "\U0002f800",
+             "e\u0301", "A\u030a", "o\u0308\u0304", "\u1100\u1161", "\u0915\u093c", "\U0001d15e", "\ufb01", "\uff21", "\u00b5",
+             "\u017f", "\u1e9b\u0323", "\u03d2\u0301", "\u2160", "\u00a0x", "\u2002y", "\u200d", "\ufeffz"]
+
+
 def generate(g, i):
     r = g.r
+    if i < len(SENSITIVE):
+        t = SENSITIVE[i]
+        return probe_spec(r, t + "q", "q" + t)
     if r.random() < 0.75:
         return probe_spec(r, rand_string(r, True), rand_string(r, False))
     chars = []
